@@ -593,3 +593,30 @@ family("size0", gen_size0, ["polynomial", "sum", "prod", "any", "all", "equal", 
        "functions; plus the inputs of shape_functions/other_mirrored whose numpy result is or contains an empty array (repeat 0, empty "
        "split pieces, diff of one element, nonzero of an all-zero array ...); numpy's conventions (sum=0, prod=1, all=True, result "
        "shapes) are the expected values; no other C11 check contains an input with a size-0 operand or result", keep="empty")
+
+
+# ------------------------------------------------------------------ large constant arrays (ranking buffers must not be narrow)
+def gen_large(tier, rng):
+    for n in [40000, 70000] + ([33000, 66000, 140000] if tier == "thorough" else []):
+        for fn in ("amax", "amin", "argmax", "argmin"):
+            yield {"n": n, "fn": fn, "seed": rng.randrange(10 ** 6), "shape": rng.choice(["flat", "2d"]), "dtype": rng.choice(["int64", "float64"])}
+
+
+@check("C11", "large_arrays.extremes", gen_large, functions=("numpoly.sortable_proxy", "numpoly.amax", "numpoly.amin", "numpoly.argmax", "numpoly.argmin"),
+       note="bounded: amax/amin/argmax/argmin of constant polynomial arrays holding a random permutation of 0..n-1 for n = 40000, 70000 "
+            "(thorough: also 33000, 66000, 140000; past the int16/uint16/… ranges a rank counter could be stored in), flat or (n/100, 100), "
+            "compared with numpy on the same numbers")
+def large_extremes(inp):
+    import numpoly
+    rs = numpy.random.RandomState(inp["seed"])
+    data = rs.permutation(inp["n"]).astype(inp["dtype"])
+    if inp["shape"] == "2d":
+        data = data.reshape(-1, 100)
+    p = numpoly.polynomial(data)
+    fn = inp["fn"]
+    got = getattr(numpoly, fn)(p)
+    want = getattr(numpy, fn)(data)
+    got = got.tonumpy() if isinstance(got, numpoly.ndpoly) else numpy.asarray(got)
+    if numpy.shape(got) != numpy.shape(want) or not numpy.array_equal(got, want):
+        return f"{fn} of a permutation of 0..{inp['n'] - 1} ({inp['shape']}, {inp['dtype']}): {numpy.asarray(got).tolist()} instead of {numpy.asarray(want).tolist()}"
+    return None
